@@ -36,10 +36,11 @@ func (l *Lz4) Compress(data []byte) ([]byte, error) {
 	if err != nil {
 		return nil, err
 	}
-	if n >= len(data) {
-		return nil, fmt.Errorf("`%s` is not compressible", string(data))
+	if n == 0 && len(data) > 0 {
+		return nil, fmt.Errorf("lz4: %d bytes could not be compressed into %d", len(data), len(buffer))
 	}
 
+	// data that does not shrink (short or already compressed undo logs) is still a valid block
 	return buffer[:n], nil
 }
 
